@@ -74,9 +74,13 @@ func zzEventOp(tx *Tx, c zzCfg) error {
 	b := tx.Bucket([]byte("b"))
 	switch zz.Choose(zz.Param("variants", 3)) {
 	case 0:
-		return b.Put([]byte("k04"), zzVal(c.pageSize*3/10, 'W'))
+		v := zzVal(c.pageSize*3/10, 'W')
+		v[0] = zz.U8("val0") // symbolic content: snapshot comparisons are decided by the solver
+		return b.Put([]byte("k04"), v)
 	case 1:
-		return b.Put([]byte("ov2"), zzVal(c.pageSize+50, 'V'))
+		v := zzVal(c.pageSize+50, 'V')
+		v[len(v)-1] = zz.U8("valN")
+		return b.Put([]byte("ov2"), v)
 	case 2:
 		for _, k := range []string{"k08", "k10", "k12"} {
 			if err := b.Delete([]byte(k)); err != nil {
